@@ -497,6 +497,34 @@ def c_write_all(m, st, f, a):
     return err(Opaque('io::Error', 'writer failed'))
 
 
+@contract(r"^(std::io::)?IoSlice::<'_>::new$", 2)
+def c_ioslice_new(m, st, f, a): return a[0]
+
+
+@contract(r'^<.* as (std::io::)?Write>::write_vectored$', 2)
+def c_write_vectored(m, st, f, a):
+    """std: a Vec<u8> takes every slice; the DEFAULT method (any writer that only implements `write`, like the fail-after-k
+    writer) forwards the first non-empty slice to `write`, which may accept only part of it; returns the number of bytes taken"""
+    w = sv(a[0])
+    if not isinstance(w, WriterV): return NotImplemented
+    bufs = []
+    for e in sv(a[1]).f:
+        x = sv(e)
+        bufs.append(list(x.bytes()) if isinstance(x, StrV) else [b.e for b in x.f])
+    if w.failed: return err(Opaque('io::Error', 'writer failed'))
+    if w.limit is None:
+        for bs in bufs: w.buf.extend(bs)
+        return ok(IntV(sum(len(b) for b in bufs), 'usize'))
+    first = next((b for b in bufs if b), [])
+    if not first: return ok(IntV(0, 'usize'))
+    room = binop('Sub', w.limit, IntV(len(w.buf), 'usize'))
+    k = m.concretize(st, room, range(0, len(first))) if not bool_val(m, st, binop('Ge', w.limit, IntV(len(w.buf) + len(first), 'usize'))) else len(first)
+    if k == 0:
+        w.failed = True; return err(Opaque('io::Error', 'writer failed'))
+    w.buf.extend(first[:k])
+    return ok(IntV(k, 'usize'))
+
+
 def hash_value(m, st, h, v):
     """structural Hash (what #[derive(Hash)] / std impls feed into the hasher), recorded"""
     v = sv(v)
